@@ -101,44 +101,56 @@ post-send bookkeeping `book`). -/
 theorem flags_sent (p : Peer Rec) : flagsOf p = if p.flagReset then FLAG_RESET else 0 := by
   unfold flagsOf; split <;> simp
 
-/-- success: both timers become the (clamped) clock read after the send; the stash is cleared on
-SYNC and RESYNC and untouched on PING; the flag is cleared iff it was on the wire. -/
-theorem book_success (t : MsgType) (snap cache : Msg Rec) (clock : Int) (p : Peer Rec) :
-    let r := (sendPeer t snap cache 0 clock p).1
-    r.lastComms = max 0 clock ∧ r.lastAttempt = max 0 clock ∧
+/-- success: `last_attempt` becomes the (clamped) clock read after the send, and so does `last_comms`
+unless the device asked for a reset since the decision (reset counter ≠ the one seen at the
+decision; then `last_comms` is left alone); the stash is cleared on SYNC and RESYNC and untouched on
+PING; the flag is cleared iff it was on the wire. -/
+theorem book_success (t : MsgType) (seen : Nat) (snap cache : Msg Rec) (clock : Int) (p : Peer Rec) :
+    let r := (sendPeer t seen snap cache 0 clock p).1
+    r.lastComms = (if p.resets = seen then max 0 clock else p.lastComms) ∧ r.lastAttempt = max 0 clock ∧
     r.flagReset = (if flagsOf p &&& FLAG_RESET = FLAG_RESET then false else p.flagReset) ∧
-    r.flagReset = false ∧
+    r.flagReset = false ∧ r.resets = p.resets ∧
     (t = .ping → r.stashC = p.stashC ∧ r.stashH = p.stashH ∧ r.stashU = p.stashU) ∧
     (t ≠ .ping → r.stashC = [] ∧ r.stashH = [] ∧ r.stashU = []) := by
-  cases t <;> cases hf : p.flagReset <;>
-    simp [sendPeer, book, prep, flagsOf, clearFlagIfSent, FLAG_RESET, hf, Peer.setLastComms, Peer.setLastAttempt,
-      Peer.setFlagReset, Peer.clearStash]
+  cases t <;> cases hf : p.flagReset <;> by_cases hs : p.resets = seen <;>
+    simp [sendPeer, book, bookContact, prep, flagsOf, clearFlagIfSent, FLAG_RESET, hf, hs, Peer.contacted,
+      Peer.setLastAttempt, Peer.setFlagReset, Peer.clearStash]
 
-example : (sendPeer .sync (Msg.empty : Msg Nat) ⟨[7], [], []⟩ 0 100 ⟨3, 4, true, [1], [2], []⟩).1
-    = ⟨100, 100, false, [], [], []⟩ := by decide
+example : (sendPeer .sync 2 (Msg.empty : Msg Nat) ⟨[7], [], []⟩ 0 100 ⟨3, 4, 2, true, [1], [2], []⟩).1
+    = ⟨100, 100, 2, false, [], [], []⟩ := by decide
+
+/-- a reset was counted since the decision: the successful send is not recorded as contact. -/
+example : (sendPeer .sync 1 (Msg.empty : Msg Nat) ⟨[7], [], []⟩ 0 100 ⟨0, 0, 2, true, [1], [2], []⟩).1
+    = ⟨0, 100, 2, false, [], [], []⟩ := by decide
+
+/-- in a pass during which no reset is handled (`seen` is the device's current counter) the
+bookkeeping is the unconditional one that stood before the fix of F5. -/
+theorem book_eq_old (t : MsgType) (flags err : Nat) (now : Int) (cache : Msg Rec) (p : Peer Rec) :
+    book t flags err now p.resets cache (prep t p) = bookOld t flags err now cache (prep t p) := by
+  cases t <;> simp [book, bookOld, bookContact, bookContactOld, prep, Peer.contacted, Peer.setLastComms, Peer.clearStash]
 
 /-- failure (timeout or error alike): `last_comms` and the flag are unchanged, `last_attempt` is the
 (clamped) clock read after the send; on SYNC the *queue item* (not the already-stashed part) is
 appended to the stash; on RESYNC the stash stays dropped; on PING it is untouched. -/
-theorem book_failure (t : MsgType) (snap cache : Msg Rec) (err : Nat) (herr : err ≠ 0) (clock : Int)
+theorem book_failure (t : MsgType) (seen : Nat) (snap cache : Msg Rec) (err : Nat) (herr : err ≠ 0) (clock : Int)
     (p : Peer Rec) :
-    let r := (sendPeer t snap cache err clock p).1
-    r.lastComms = p.lastComms ∧ r.lastAttempt = max 0 clock ∧ r.flagReset = p.flagReset ∧
+    let r := (sendPeer t seen snap cache err clock p).1
+    r.lastComms = p.lastComms ∧ r.lastAttempt = max 0 clock ∧ r.flagReset = p.flagReset ∧ r.resets = p.resets ∧
     (t = .sync → r.stashC = p.stashC ++ cache.c ∧ r.stashH = p.stashH ++ cache.h ∧ r.stashU = p.stashU ++ cache.u) ∧
     (t = .resync → r.stashC = [] ∧ r.stashH = [] ∧ r.stashU = []) ∧
     (t = .ping → r.stashC = p.stashC ∧ r.stashH = p.stashH ∧ r.stashU = p.stashU) := by
   cases t <;>
-    simp [sendPeer, book, prep, herr, Peer.setLastAttempt, Peer.appendStash, Peer.clearStash]
+    simp [sendPeer, book, bookContact, prep, herr, Peer.setLastAttempt, Peer.appendStash, Peer.clearStash]
 
-example : (sendPeer .sync (Msg.empty : Msg Nat) ⟨[7], [], [8]⟩ 2 (-5) ⟨3, 4, true, [1], [2], []⟩).1
-    = ⟨3, 0, true, [1, 7], [2], [8]⟩ := by decide
+example : (sendPeer .sync 0 (Msg.empty : Msg Nat) ⟨[7], [], [8]⟩ 2 (-5) ⟨3, 4, 0, true, [1], [2], []⟩).1
+    = ⟨3, 0, 0, true, [1, 7], [2], [8]⟩ := by decide
 
 /-- the flag after a send: still set iff it was set and the send failed. -/
-theorem flag_after_send (t : MsgType) (snap cache : Msg Rec) (err : Nat) (clock : Int) (p : Peer Rec) :
-    (sendPeer t snap cache err clock p).1.flagReset = (p.flagReset && (err != 0)) := by
+theorem flag_after_send (t : MsgType) (seen : Nat) (snap cache : Msg Rec) (err : Nat) (clock : Int) (p : Peer Rec) :
+    (sendPeer t seen snap cache err clock p).1.flagReset = (p.flagReset && (err != 0)) := by
   by_cases herr : err = 0
-  · subst herr; rw [(book_success t snap cache clock p).2.2.2.1]; simp
-  · rw [(book_failure t snap cache err herr clock p).2.2.1]; simp [herr]
+  · subst herr; rw [(book_success t seen snap cache clock p).2.2.2.1]; simp
+  · rw [(book_failure t seen snap cache err herr clock p).2.2.1]; simp [herr]
 
 /-- what SYNC carries: the pass's queue item followed by the device's backlog; RESYNC carries the
 snapshot; PING carries nothing. -/
@@ -176,11 +188,11 @@ theorem selectMode_interval (cfg : Periods) (c a : Int) (q : Bool) (st : Nat) (t
   cases t <;> cases q <;> simp [interval] at hi <;> subst hi <;> repeat' split at h
   all_goals simp_all
 
-theorem lastAttempt_after_send (t : MsgType) (snap cache : Msg Rec) (err : Nat) (clock : Int) (p : Peer Rec) :
-    (sendPeer t snap cache err clock p).1.lastAttempt = max 0 clock := by
+theorem lastAttempt_after_send (t : MsgType) (seen : Nat) (snap cache : Msg Rec) (err : Nat) (clock : Int) (p : Peer Rec) :
+    (sendPeer t seen snap cache err clock p).1.lastAttempt = max 0 clock := by
   by_cases herr : err = 0
-  · subst herr; exact (book_success t snap cache clock p).2.1
-  · exact (book_failure t snap cache err herr clock p).2.1
+  · subst herr; exact (book_success t seen snap cache clock p).2.1
+  · exact (book_failure t seen snap cache err herr clock p).2.1
 
 theorem paced_aux (j : Nat) (steps : List (Step Rec)) :
     ∀ (s : TState Rec) (prev : Option JEv),
@@ -343,7 +355,7 @@ theorem resync_aux (j : Nat) (steps : List (Step Rec)) :
         rw [hp] at he'; cases he'
         have herr' : (outcome j).1 ≠ 0 := by simpa using herr
         simp only [entryAfter]
-        rw [(book_failure t snap _ _ herr' _ e.2).1]; exact hlc
+        rw [(book_failure t _ snap _ _ herr' _ e.2).1]; exact hlc
 
 /-- **a peer that receives the flag sends a RESYNC next** (sequential model: the listener's
 `clear_last` happens between passes): in every sequence of steps whose passes read clocks
@@ -421,10 +433,12 @@ theorem gen_devman_eq :
     @Bobo.Gen.Modes.setLastAttempt Rec = @Peer.setLastAttempt Rec ∧
     @Bobo.Gen.Modes.setFlagReset Rec = @Peer.setFlagReset Rec ∧
     @Bobo.Gen.Modes.clearLast Rec = @Peer.clearLast Rec ∧
+    @Bobo.Gen.Modes.contacted Rec = @Peer.contacted Rec ∧
     @Bobo.Gen.Modes.clearStash Rec = @Peer.clearStash Rec ∧
     @Bobo.Gen.Modes.appendStash Rec = @Peer.appendStash Rec ∧
     @Bobo.Gen.Modes.sizeStash Rec = @Peer.sizeStash Rec :=
-  ⟨rfl, rfl, rfl, rfl, rfl, rfl, rfl, rfl⟩
+  ⟨rfl, rfl, rfl, rfl, rfl, by funext p now seen; unfold Bobo.Gen.Modes.contacted Peer.contacted; split <;> simp_all,
+    rfl, rfl, rfl⟩
 
 theorem gen_flagsOf_eq : @Bobo.Gen.Modes.flagsOf Rec = @flagsOf Rec := by
   funext p
@@ -439,11 +453,11 @@ theorem gen_payload_eq : @Bobo.Gen.Modes.payload Rec = @payload Rec := by
   funext t snap cache p; cases t <;> rfl
 
 theorem gen_book_eq : @Bobo.Gen.Modes.book Rec = @book Rec := by
-  funext t flags err now cache p
+  funext t flags err now seen cache p
   have hF : Bobo.Gen.Modes.FLAG_RESET = FLAG_RESET := gen_consts_eq.2.2.2.1
-  obtain ⟨-, h1, h2, h3, -, h5, h6, -⟩ := @gen_devman_eq Rec
-  unfold Bobo.Gen.Modes.book book clearFlagIfSent
-  rw [h1, h2, h3, h5, h6, hF]
+  obtain ⟨-, -, h2, h3, -, h4, h5, h6, -⟩ := @gen_devman_eq Rec
+  unfold Bobo.Gen.Modes.book book bookContact clearFlagIfSent
+  rw [h2, h3, h4, h5, h6, hF]
   cases t <;> by_cases he : err = 0 <;> by_cases hf : flags &&& FLAG_RESET = FLAG_RESET <;> simp [he, hf]
 
 theorem gen_onIncomingFlags_eq : @Bobo.Gen.Modes.onIncomingFlags Rec = @onIncomingFlags Rec := by
